@@ -3,6 +3,7 @@ package scen
 import (
 	"context"
 	"fmt"
+	"math/rand"
 	"time"
 
 	"detsim"
@@ -617,6 +618,29 @@ func describeJoin(sci interface{}) string {
 	return fmt.Sprintf("join=%s with=%v src=%d mid=%d dst=%d acts=%d cycles=%d strategy=%s", sc.Kind, sc.With, len(sc.SrcInit), len(sc.MidInit), len(sc.DstInit), len(sc.Acts), sc.Cycles, sc.Sim.Strategy.Kind)
 }
 
+// addDecisiveBurst: destinations for both selectors exist and one source flips
+// between them several times without a pause; the join must end with the
+// selection of the LAST selector.
+func addDecisiveBurst(rng *rand.Rand, sc *Join) {
+	sc.DstInit = append(sc.DstInit,
+		world.Spec{NS: "n1", Name: "p1", Labels: map[string]string{"app": "a"}},
+		world.Spec{NS: "n1", Name: "p2", Labels: map[string]string{"app": "b"}})
+	sc.SrcInit = append(sc.SrcInit, world.Spec{NS: "n1", Name: "s1", Sel: map[string]string{"app": "a"}})
+	at := rng.Intn(len(sc.Acts) + 1)
+	var burst []JAct
+	v := "a"
+	for k := 2 + rng.Intn(4); k > 0; k-- {
+		if v == "a" {
+			v = "b"
+		} else {
+			v = "a"
+		}
+		burst = append(burst, JAct{Op: "src-apply", NS: "n1", Name: "s1", Sel: map[string]string{"app": v}})
+	}
+	burst = append(burst, JAct{Op: "check"})
+	sc.Acts = append(sc.Acts[:at:at], append(burst, sc.Acts[at:]...)...)
+}
+
 func genC09(g GenCtx) interface{} {
 	return genJoin(g, joinKinds[g.Idx%len(joinKinds)]) // every join is exercised in turn
 }
@@ -715,26 +739,7 @@ func genJoin(g GenCtx, kind string) *Join {
 		}
 	}
 	if !isIng && rng.Intn(3) == 0 {
-		// a decisive ordering scenario: destinations for both selectors exist and
-		// one source flips between them several times without a pause; the join
-		// must end with the selection of the LAST selector
-		sc.DstInit = append(sc.DstInit,
-			world.Spec{NS: "n1", Name: "p1", Labels: map[string]string{"app": "a"}},
-			world.Spec{NS: "n1", Name: "p2", Labels: map[string]string{"app": "b"}})
-		sc.SrcInit = append(sc.SrcInit, world.Spec{NS: "n1", Name: "s1", Sel: map[string]string{"app": "a"}})
-		at := rng.Intn(len(sc.Acts) + 1)
-		var burst []JAct
-		v := "a"
-		for k := 2 + rng.Intn(4); k > 0; k-- {
-			if v == "a" {
-				v = "b"
-			} else {
-				v = "a"
-			}
-			burst = append(burst, JAct{Op: "src-apply", NS: "n1", Name: "s1", Sel: map[string]string{"app": v}})
-		}
-		burst = append(burst, JAct{Op: "check"})
-		sc.Acts = append(sc.Acts[:at:at], append(burst, sc.Acts[at:]...)...)
+		addDecisiveBurst(rng, sc)
 	}
 	sc.CloseDst = rng.Intn(3) == 0
 	if rng.Intn(3) == 0 {
